@@ -138,3 +138,74 @@ func Writes(banks int, l1, l2, l3 int) {
 	}
 	vp.Reach("end")
 }
+
+// Handles: several readers and writers obtained from one ROM are independent streams. Two readers
+// (then two writers) at two arbitrary ROM-half addresses are used alternately; each continues from
+// where *it* stopped, whatever was done through the other. Both windows are assumed to hold at
+// least one byte more than is asked of them (the bank's last byte is the subject of a known finding).
+func Handles(banks int, la, lb int) {
+	r, shadow, addr, bank, page := setup(banks)
+	vp.Assume(page >= 0x8000)
+	addr2 := vp.U32("bus-address-2")
+	vp.Assume(addr2 < 1<<24)
+	bank2, page2 := addr2>>16, addr2&0xFFFF
+	vp.Assume(bank2 < uint32(banks) && page2 >= 0x8000)
+	offA, endA := bank<<15|(page-0x8000), (bank+1)<<15
+	offB, endB := bank2<<15|(page2-0x8000), (bank2+1)<<15
+	vp.Assume(endA-offA > uint32(2*la)+1)
+	vp.Assume(endB-offB > uint32(2*lb)+1)
+	ra, rb := r.BusReader(addr), r.BusReader(addr2)
+	okN, okData := true, true
+	posA, posB := offA, offB
+	for round := 0; round < 2; round++ {
+		pa, pb := make([]byte, la), make([]byte, lb)
+		n, err := ra.Read(pa)
+		if n != la || (err != nil && la > 0) {
+			okN = false
+		}
+		for k := 0; k < la; k++ {
+			if pa[k] != shadow[posA+uint32(k)] {
+				okData = false
+			}
+		}
+		posA += uint32(la)
+		n, err = rb.Read(pb)
+		if n != lb || (err != nil && lb > 0) {
+			okN = false
+		}
+		for k := 0; k < lb; k++ {
+			if pb[k] != shadow[posB+uint32(k)] {
+				okData = false
+			}
+		}
+		posB += uint32(lb)
+	}
+	vp.Assert("interleaved-readers-each-deliver-the-requested-count", okN)
+	vp.Assert("interleaved-readers-each-continue-their-own-stream", okData)
+	wa, wb := r.BusWriter(addr), r.BusWriter(addr2)
+	posA, posB = offA, offB
+	okW := true
+	for round := 0; round < 2; round++ {
+		xa := vp.Bytes("xa"+string(rune('1'+round)), la)
+		xb := vp.Bytes("xb"+string(rune('1'+round)), lb)
+		n, err := wa.Write(xa)
+		if n != la || err != nil {
+			okW = false
+		}
+		for k := 0; k < la; k++ {
+			shadow[posA+uint32(k)] = xa[k]
+		}
+		posA += uint32(la)
+		n, err = wb.Write(xb)
+		if n != lb || err != nil {
+			okW = false
+		}
+		for k := 0; k < lb; k++ {
+			shadow[posB+uint32(k)] = xb[k]
+		}
+		posB += uint32(lb)
+	}
+	vp.Assert("interleaved-writers-each-accept-what-fits", okW)
+	vp.Assert("interleaved-writers-each-continue-their-own-stream", vp.BytesEqual(r.Contents, shadow))
+	vp.Reach("end")
+}
